@@ -75,6 +75,7 @@ func runC03(c *Ctx) {
 	c.L.Floor("C03.accept-window", 7)
 	c.L.Floor("C03.reject-window", 5)
 	c.L.Floor("C03.rune-class", 3)
+	c.L.Floor("C03.label-iteration", 3)
 	c.L.Floor("C03.layering", 7)
 
 	sp := c.P.Pkg("netutil")
@@ -145,6 +146,9 @@ func runC03(c *Ctx) {
 			if subject[f] == nil {
 				c.undecided("C03.accept-window", f, "idna.ToASCII(name)", nil, "the ASCII form whose length is bounded is not computed from the parameter")
 			}
+		}
+		if s.isName && subject[f] != nil {
+			c03LabelIteration(c, f, subject[f])
 		}
 		// ---- R4 ----
 		b := &skel.Builder{Pkg: sp, Family: c03Family}
@@ -380,4 +384,111 @@ func isOneOf(v ssa.Value, vs []ssa.Value) bool {
 		}
 	}
 	return false
+}
+
+// c03LabelIteration: the name validators walk the labels with
+//
+//	label, tail, found := strings.Cut(name, ".")
+//	for ; found; label, tail, found = strings.Cut(tail, ".") { check(label) }
+//	return ValidateTLDLabel(label)
+//
+// The rule identifies the three loop-carried values by what they are (results
+// 0, 1, 2 of a Cut on "." of the ASCII name / of the previous tail) and checks
+// that the loop runs exactly while the last Cut found a dot, that every label
+// before the last is validated, and that the last label (possibly empty: a
+// trailing dot) goes to the TLD validator.
+func c03LabelIteration(c *Ctx, f *ssa.Function, subject ssa.Value) {
+	what := "labels are split at every '.', each non-final label is validated, the final one (empty after a trailing dot) is validated as TLD"
+	var head *ssa.BasicBlock
+	for h := range core.LoopHeads(f) {
+		if head != nil {
+			c.undecided("C03.label-iteration", f, what, nil, "more than one loop")
+			return
+		}
+		head = h
+	}
+	if head == nil {
+		c.undecided("C03.label-iteration", f, what, nil, "no loop")
+		return
+	}
+	isCut := func(v ssa.Value, arg ssa.Value) (*ssa.Call, bool) {
+		call, ok := v.(*ssa.Call)
+		if !ok || core.CalleeName(&call.Call) != "strings.Cut" {
+			return nil, false
+		}
+		sep, isK := core.ConstString(call.Call.Args[1])
+		return call, isK && sep == "." && (arg == nil || call.Call.Args[0] == arg)
+	}
+	phis := map[int]*ssa.Phi{}
+	var entryCut, backCut *ssa.Call
+	for _, in := range head.Instrs {
+		phi, ok := in.(*ssa.Phi)
+		if !ok {
+			break
+		}
+		idx := -1
+		okPhi := true
+		for i, e := range phi.Edges {
+			ex, isEx := e.(*ssa.Extract)
+			if !isEx {
+				okPhi = false
+				break
+			}
+			call, isC := isCut(ex.Tuple, nil)
+			if !isC || (idx >= 0 && idx != ex.Index) {
+				okPhi = false
+				break
+			}
+			idx = ex.Index
+			if head.Dominates(head.Preds[i]) {
+				if backCut != nil && backCut != call {
+					okPhi = false
+				}
+				backCut = call
+			} else {
+				if entryCut != nil && entryCut != call {
+					okPhi = false
+				}
+				entryCut = call
+			}
+		}
+		if okPhi && idx >= 0 {
+			phis[idx] = phi
+		}
+	}
+	label, tail, found := phis[0], phis[1], phis[2]
+	if label == nil || tail == nil || entryCut == nil || backCut == nil {
+		c.check(false, "C03.label-iteration", f, what, nil, "the loop does not carry (label, tail) as results 0 and 1 of strings.Cut(_, \".\")")
+		return
+	}
+	okSrc := entryCut.Call.Args[0] == subject && backCut.Call.Args[0] == ssa.Value(tail)
+	// the loop condition is `found` of the Cut that produced the current label
+	hif, _ := head.Instrs[len(head.Instrs)-1].(*ssa.If)
+	okCond := false
+	condDesc := "-"
+	if hif != nil {
+		cond, truth := core.StripNot(hif.Cond, true)
+		condDesc = core.Describe(cond)
+		body := core.LoopBody(head)
+		okCond = found != nil && cond == ssa.Value(found) && truth && body[hif.Block().Succs[0]] && !body[hif.Block().Succs[1]]
+	}
+	// every iteration validates the current label
+	okBody := false
+	for b := range core.LoopBody(head) {
+		for _, in := range b.Instrs {
+			if call, ok := in.(*ssa.Call); ok && call.Call.StaticCallee() != nil && strings.HasPrefix(call.Call.StaticCallee().Name(), "Validate") && len(call.Call.Args) == 1 && call.Call.Args[0] == ssa.Value(label) {
+				okBody = true
+			}
+		}
+	}
+	// the exit validates the final label as TLD
+	okTLD := false
+	for _, ci := range core.CallsTo(f, core.ModPath+"/netutil.ValidateTLDLabel") {
+		if ci.Common().Args[0] == ssa.Value(label) && !core.LoopBody(head)[ci.Block()] {
+			okTLD = true
+		}
+	}
+	c.check(okSrc && okCond && okBody && okTLD, "C03.label-iteration", f, what, hif,
+		sprintf("first Cut on the ASCII name and next on the previous tail: %v; loop runs while `found` of the last Cut (condition is %s): %v; body validates the current label: %v; exit passes the last label to ValidateTLDLabel: %v",
+			okSrc, condDesc, okCond, okBody, okTLD))
 }
